@@ -269,6 +269,28 @@ func (s *vfSim) newWork() *vfWork {
 	return w
 }
 
+// newWorkNoAccept: a workload whose streams are opened explicitly on both sides (no AcceptStream loop).
+func (s *vfSim) newWorkNoAccept() *vfWork {
+	w := &vfWork{sim: s, maxBuf: 1 << 20}
+	w.reg[0], w.reg[1] = vfNewStreamReg(), vfNewStreamReg()
+	w.accDone[0], w.accDone[1] = make(chan struct{}), make(chan struct{})
+	close(w.accDone[0])
+	close(w.accDone[1])
+
+	return w
+}
+
+// addStreamWith registers the stream objects returned by get(side) on both sides, then starts the run.
+func (w *vfWork) addStreamWith(cfg vfStreamCfg, inc int, get func(side int) *Stream) *vfStreamRun {
+	for side := 0; side < 2; side++ {
+		if st := get(side); st != nil {
+			w.reg[side].put(cfg.SID, st)
+		}
+	}
+
+	return w.addStream(cfg, inc)
+}
+
 // addStream starts writer and reader goroutines for one (direction, stream,
 // incarnation).
 func (w *vfWork) addStream(cfg vfStreamCfg, inc int) *vfStreamRun {
